@@ -344,7 +344,9 @@ theorem effectiveGrid_valid (cfg : Cfg) (hfb : cfg.forceBalanced = true) (grid :
     · omega
   refine ⟨(GBT.forceFull ⟨a, b, root⟩).grid, (GBT.forceFull ⟨a, b, root⟩).gridLevels, ?_, ?_⟩
   · simp only [effectiveGrid]
-    rw [if_neg hl2, if_pos hfb, hinit]
+    have hc : (cfg.forceBalanced && decide (grid.length > 2)) = true := by
+      simp only [hfb, Bool.true_and, decide_eq_true_eq]; omega
+    rw [if_neg hl2, if_pos hc, hinit]
   · have hd := BTree.forceFull_dyadic root _ _ d1
     have href' := dyadic_refSeg root.forceFull ((a + b) / 2) ((b - a) / 2) 1 (a, 0) (b, 0) hd (by simp)
       (by simp only; ring) (by simp only; ring)
@@ -368,8 +370,8 @@ theorem weights_of_effective (cfg : Cfg) (grid : List ℚ) (lv : List ℕ) (g : 
     simp
   simp only [weights, setGrid, he, he', EG.weights]
 
-/-- **no assertion fires on a valid refinement tree with forced completion** either, as soon as the tree has an
-    inner point (for the unrefined grid see `forceBalanced_two_points`) -/
+/-- **no assertion fires on a valid refinement tree with forced completion** either, when the tree has an inner
+    point (the unrefined grid is not completed, see `valid_weights_defined_all`) -/
 theorem valid_weights_defined_fb (cfg : Cfg) (hfb : cfg.forceBalanced = true) (grid : List ℚ) (lv : List ℕ)
     (hv : ValidTree grid lv) (h3 : 3 ≤ grid.length) : ∃ ws, weights cfg grid lv = .ok ws := by
   obtain ⟨g, l, he, hv'⟩ := effectiveGrid_valid cfg hfb grid lv hv h3
@@ -381,5 +383,29 @@ theorem valid_weights_defined_fb (cfg : Cfg) (hfb : cfg.forceBalanced = true) (g
     omega
   rw [weights_of_effective cfg grid lv g l he hlen h2]
   exact valid_weights_defined _ rfl g l hv'
+
+/-- **no assertion fires on a valid refinement tree**, for every configuration (the tree is completed only when it
+    has an inner point: `force_balanced_refinement_tree and len(grid) > 2`) -/
+theorem valid_weights_defined_all (cfg : Cfg) (grid : List ℚ) (lv : List ℕ) (hv : ValidTree grid lv) :
+    ∃ ws, weights cfg grid lv = .ok ws := by
+  cases hb : cfg.forceBalanced with
+  | false => exact valid_weights_defined cfg hb grid lv hv
+  | true =>
+    by_cases h3 : 3 ≤ grid.length
+    · exact valid_weights_defined_fb cfg hb grid lv hv h3
+    · obtain ⟨a, b, inner, hab, hlen, hz, href⟩ := hv
+      have hzl : (grid.zip lv).length = inner.length + 2 := by rw [hz]; simp
+      rw [List.length_zip, ← hlen, Nat.min_self] at hzl
+      have hl2 : ¬ (grid.length ≠ lv.length ∨ grid.length < 2) := by
+        intro h; rcases h with h | h
+        · exact h hlen
+        · omega
+      have hc : ¬ (cfg.forceBalanced && decide (grid.length > 2)) = true := by
+        simp only [hb, Bool.true_and, decide_eq_true_eq]; omega
+      have he : effectiveGrid cfg grid lv = some (grid, lv) := by
+        simp only [effectiveGrid]
+        rw [if_neg hl2, if_neg hc]
+      rw [weights_of_effective cfg grid lv grid lv he hlen (by omega)]
+      exact valid_weights_defined _ rfl grid lv ⟨a, b, inner, hab, hlen, hz, href⟩
 
 end SparseSpace.Romberg
